@@ -295,6 +295,30 @@ func genHostile(r *prng.R) *Case {
 		it.D = r.Chance(1, 12)
 		c.Items = append(c.Items, it)
 	}
+	// entries with symbolic-link mode bits, alone and in chains in which an earlier link is used as a folder by a
+	// later entry: whatever an implementation makes of them, nothing outside the destination may be touched
+	if r.Chance(1, 4) {
+		nm := prng.Pick(r, []string{"a", "lnk", "up", "x y"})
+		file := Item{C: smallDesc(r)}
+		switch r.Intn(5) {
+		case 0: // a -> . ; a/b -> .. ; a/b/dropped.txt
+			c.Items = append(c.Items, Item{P: nm, L: true, C: "link:."}, Item{P: nm + "/b", L: true, C: "link:.."})
+			file.P = nm + "/b/dropped.txt"
+		case 1: // up -> .. ; up/escaped.txt
+			c.Items = append(c.Items, Item{P: nm, L: true, C: "link:.."})
+			file.P = nm + "/escaped.txt"
+		case 2: // absolute target: the snapshot root
+			c.Items = append(c.Items, Item{P: nm, L: true, C: "link:${ROOT}"})
+			file.P = nm + "/escaped.txt"
+		case 3: // sub/l -> ../.. ; sub/l/escaped.txt
+			c.Items = append(c.Items, Item{P: "sub/" + nm, L: true, C: "link:../.."})
+			file.P = "sub/" + nm + "/escaped.txt"
+		default: // a link that points at a neighbour file, then the same name as a file
+			c.Items = append(c.Items, Item{P: nm, L: true, C: "link:../escaped.txt"})
+			file.P = nm
+		}
+		c.Items = append(c.Items, file)
+	}
 	return c
 }
 
